@@ -637,6 +637,8 @@ class ndarray:
             return NotImplemented
         if isinstance(o, ndarray) and o._is_masked and not self._is_masked:
             return NotImplemented
+        if isinstance(o, MaskedConstant):
+            return _masked_binary(op, o, self) if rev else _masked_binary(op, self, o)
         return _binary(op, o, self) if rev else _binary(op, self, o)
 
     def __add__(self, o):
@@ -1348,15 +1350,22 @@ def _mask_parts(x):
     """-> (data operand for _binary, mask object-array or None)"""
     if isinstance(x, ndarray) and x._is_masked:
         return x._data_arr(), (None if x._mask is None else x._mask.a)
-    if isinstance(x, MaskedConstant):
-        return x, "all"
     return x, None
 
 
+def _masked_const_array():
+    # numpy.ma.masked is a 0-d float64 MaskedArray with data 0.0
+    return MaskedArray(ndarray(_wrap0(SFloat.const(0.0)), "float64"), ndarray(_wrap0(SBool(True)), "bool"))
+
+
 def _masked_binary(op, x, y):
+    if isinstance(x, MaskedConstant):
+        x = _masked_const_array()
+    if isinstance(y, MaskedConstant):
+        y = _masked_const_array()
     dx, mx = _mask_parts(x)
     dy, my = _mask_parts(y)
-    if isinstance(mx, str) or isinstance(my, str):
+    if False:
         # arithmetic with the masked constant: everything masked, data of the array operand kept
         arr = x if isinstance(x, ndarray) else y
         d = arr._data_arr().copy() if arr._is_masked else asarray(arr).copy()
@@ -1875,9 +1884,8 @@ def median(x, axis=None):
         # numpy: mean of the two middle timedeltas (integer division toward -inf on the ns count; whole seconds
         # make (lo+hi)*1e9/2 exact in ns, but the result may be a half second)
         tot = lo + hi
-        _ex.current().side_condition(mk_eq(tot - 2 * (tot / 2), z3.IntVal(0)),
-                                     "median of an even number of time steps is a half second (sub-second value)")
-        return _DeltaScalar(SDelta(tot / 2, nanf), x._dt)
+        half = mk_not(mk_eq(tot - 2 * (tot / 2), z3.IntVal(0)))
+        return _DeltaScalar(SDelta(tot / 2, nanf), x._dt, half=half)
     if k == "f":
         return SFloat(nanf, (lo + hi) / 2)
     return (SInt(lo).__sym_float__() + SInt(hi).__sym_float__()) / 2
@@ -1885,16 +1893,31 @@ def median(x, axis=None):
 
 class _DeltaScalar(SDelta):
     """numpy.timedelta64 scalar with a unit tag (supports .astype)."""
-    __slots__ = ("dt",)
+    __slots__ = ("dt", "half")
 
-    def __init__(self, d, dt):
+    def __init__(self, d, dt, half=FALSE):
         SDelta.__init__(self, d.s, d.nat)
         self.dt = dt
+        self.half = half     # value is s + 1/2 second (median of an even number of whole-second steps)
 
     def astype(self, t):
         ndt = dtype(t)
         if ndt.kind == "m":
+            u = _unit(ndt)
+            if u in _UNIT_PER_S and u != "s":
+                return _DeltaScalar(self, ndt, half=self.half)
+            # seconds or coarser: numpy floors
             return _DeltaScalar(self, ndt)
+        if not is_f(self.half):
+            u = _unit(self.dt)
+            if u not in ("ns", "us", "ms"):
+                raise Unsupported("half-second timedelta in a coarse unit")
+            k = _UNIT_PER_S[u]
+            cnt = self.s * k + mk_if(self.half, z3.IntVal(k // 2), z3.IntVal(0))
+            if ndt.kind == "f":
+                return SFloat(self.nat, z3.ToReal(cnt))
+            if ndt.kind in "iu":
+                return SInt(cnt)
         return cast_scalar(self, ndt, self.dt)
 
 
